@@ -170,7 +170,9 @@ func (h *H) faultActions(rt *rapid.T, fc *faultCounters) map[string]func(*rapid.
 			fc.storeFault++
 		},
 		"parkResend": func(rt *rapid.T) {
-			if h.NextConnOpts != nil {
+			armed := false
+			h.WithLock(func() { armed = h.NextConnOpts != nil })
+			if armed {
 				rt.Skip("armed already")
 			}
 			d := rapid.IntRange(0, 40).Draw(rt, "off")
